@@ -228,6 +228,21 @@ class FaultSpec(Spec):
                         raise
                     atoms.append({'sig': 'runner:aborted:' + type(ex).__name__,
                                   'msg': 'doctest_module(all, verbose=%d) raised %r' % (verbose, ex)})
+                # ---- the same module collected with analysis='dynamic' (only where that differs: the module cannot be imported) ----
+                if kind == 'importerror' and pos == 'middle' and pre == 'none':
+                    harness.forget_modules(modname)
+                    try:
+                        with contextlib.redirect_stdout(buf), contextlib.redirect_stderr(buf), harness.fresh_process_warning_filters():
+                            rs = runner.doctest_module(p, 'all', argv=[], style='freeform', verbose=verbose,
+                                                       config={'colored': False}, analysis='dynamic')
+                        if not rs.get('n_failed'):
+                            atoms.append({'sig': 'runner:dynamic-analysis:import-error-of-the-module-not-reported',
+                                          'msg': "doctest_module(all, analysis='dynamic', verbose=%d) on a module that cannot be imported: "
+                                                 '(total, passed, failed)=%r' % (verbose, (rs.get('n_total'), rs.get('n_passed'), rs.get('n_failed')))})
+                    except BaseException as ex:
+                        if type(ex).__name__ == 'CaseTimeout':
+                            raise
+                        atoms.append({'sig': 'runner:dynamic-analysis:aborted:' + type(ex).__name__, 'msg': repr(ex)})
             finally:
                 harness.forget_modules(modname)
         seen = set()
